@@ -1405,6 +1405,8 @@ impl ValidationCache {
         key: &ValidationCacheKey,
         context: &RrsetVerificationContext<'_>,
     ) -> Option<Result<RrsetProof, ProofError>> {
+        #[cfg(hickory_dns_verif)]
+        use self::verif::CacheInstant as Instant;
         let (ttl, cached) = self.inner.lock().get_mut(key)?.clone();
 
         if Instant::now() < ttl {
@@ -1430,6 +1432,8 @@ impl ValidationCache {
         key: ValidationCacheKey,
         cx: &RrsetVerificationContext<'_>,
     ) {
+        #[cfg(hickory_dns_verif)]
+        use self::verif::CacheInstant as Instant;
         debug!(
             name = ?cx.key.name,
             record_type = ?cx.key.record_type,
@@ -2612,6 +2616,24 @@ mod test {
 pub mod verif {
     use super::*;
     use crate::proto::dnssec::rdata::NSEC3;
+    use core::sync::atomic::{AtomicU64, Ordering};
+
+    static CACHE_CLOCK_OFFSET_SECS: AtomicU64 = AtomicU64::new(0);
+
+    /// Moves the validation cache's notion of "now" forward by `secs` seconds in total, so that a
+    /// harness that drives the validator clock virtually can age cached verdicts consistently.
+    pub fn set_validation_cache_clock_offset(secs: u64) {
+        CACHE_CLOCK_OFFSET_SECS.store(secs, Ordering::SeqCst);
+    }
+
+    /// Stand-in for `std::time::Instant` inside `ValidationCache`: the real clock plus the offset.
+    pub(super) struct CacheInstant;
+
+    impl CacheInstant {
+        pub(super) fn now() -> Instant {
+            Instant::now() + Duration::from_secs(CACHE_CLOCK_OFFSET_SECS.load(Ordering::SeqCst))
+        }
+    }
 
     /// Direct access to the NSEC decision procedure.
     pub fn verify_nsec(
